@@ -219,6 +219,26 @@ func simplify(t *Term) *Term {
 			return &Term{Op: "elem", A: []*Term{t.A[0]}, Typ: t.Typ, Pos: t.Pos}
 		}
 	}
+	// the two halves of a byte string cut at the first separator: bytes.SplitN(x, sep, 2)[i] and bytes.Cut(x, sep)
+	// are the slicings x[:Index(x, sep)] and x[Index(x, sep)+len(sep):] (sep a one-byte separator here)
+	if t.Op == "idx" && len(t.A) == 2 && t.A[0].Op == "bytes.SplitN" && len(t.A[0].A) == 3 && t.A[0].A[2].IsAt("#2") && t.A[0].A[1].IsAt("@types.EmptyByte") {
+		x, sep := t.A[0].A[0], t.A[0].A[1]
+		switch {
+		case t.A[1].IsAt("#0"):
+			return &Term{Op: "slice", A: []*Term{x, atom("#0"), mk("bytes.Index", x, sep)}, Typ: t.Typ, Pos: t.Pos}
+		case t.A[1].IsAt("#1"):
+			return &Term{Op: "slice", A: []*Term{x, mk("+", mk("bytes.Index", x, sep), atom("#1")), atom("_")}, Typ: t.Typ, Pos: t.Pos}
+		}
+	}
+	if t.Op == "res" && len(t.A) == 2 && t.A[1].Op == "bytes.Cut" && len(t.A[1].A) == 2 && t.A[1].A[1].IsAt("@types.EmptyByte") {
+		x, sep := t.A[1].A[0], t.A[1].A[1]
+		switch {
+		case t.A[0].IsAt("0"):
+			return &Term{Op: "slice", A: []*Term{x, atom("#0"), mk("bytes.Index", x, sep)}, Typ: t.Typ, Pos: t.Pos}
+		case t.A[0].IsAt("1"):
+			return &Term{Op: "slice", A: []*Term{x, mk("+", mk("bytes.Index", x, sep), atom("#1")), atom("_")}, Typ: t.Typ, Pos: t.Pos}
+		}
+	}
 	if t.Op == "res" && len(t.A) == 2 && t.A[1].Op == "tuple" {
 		// (res i (tuple a b c)) -> element
 		var i int
